@@ -11,6 +11,8 @@ def run(tier, seed):
     m0 = tq.initial()
     space = tq.c13_space(2 if tier == 'quick' else 3)
     extra = [s for s in tq.enumerate_series(2, 2, allow_after_failure=1) if any(not p.ok() for p in s)]
+    # failing patches applied with -R / -p0 / -p2: rejects carry the hunks as written in the patch file, names stripped
+    extra += [s for s in tq.with_patch_options([x for x in tq.enumerate_series(2, 1, allow_after_failure=1) if any(not p.ok() for p in x)], 2) if any(p.reverse or p.strip != 1 for p in s)]
     seen, uniq = set(), []
     for s in space + extra:
         k = tq.describe_series(s)
